@@ -52,9 +52,9 @@ type raceTrace struct {
 	// while a mutex is held exclusively stays private to the publishing call
 	// until that critical section ends (any other call can only obtain the
 	// pointer through the shared location, whose own accesses are checked).
-	epoch  map[uintptr]int            // mutex -> number of acquisitions so far
+	epoch  map[uintptr]int             // mutex -> number of acquisitions so far
 	pub    map[uintptr]map[uintptr]int // cell -> {mutex: epoch} held exclusively at publication
-	pubCtx map[uintptr]int            // non-nil while a publication is being marked
+	pubCtx map[uintptr]int             // non-nil while a publication is being marked
 }
 
 // mark records addr as shared; it reports whether it was new.
